@@ -8,6 +8,10 @@ const DEFAULT_BUFFER_LEN: usize = if cfg!(test) { 13 } else { 1024 };
 pub(crate) struct TextDecoder {
     encoding: AsciiCompatibleEncoding,
     pending_source_location_bytes_start: usize,
+    /// Number of source bytes, starting at `pending_source_location_bytes_start`, that the
+    /// streaming decoder has consumed but that haven't been part of any emitted chunk yet
+    /// (an incomplete multi-byte sequence at the end of the previous input).
+    pending_source_location_len: usize,
     pending_text_streaming_decoder: Option<Decoder>,
     text_buffer: String,
 }
@@ -21,6 +25,7 @@ impl TextDecoder {
     pub fn new(encoding: AsciiCompatibleEncoding) -> Self {
         Self {
             pending_source_location_bytes_start: 0,
+            pending_source_location_len: 0,
             encoding,
             pending_text_streaming_decoder: None,
             // this will be later initialized to DEFAULT_BUFFER_LEN,
@@ -81,6 +86,14 @@ impl TextDecoder {
             self.init_text_buffer();
         }
 
+        // Bytes consumed by the decoder without producing any output yet still belong
+        // to the next emitted chunk.
+        let mut unreported_len = 0;
+        if self.pending_text_streaming_decoder.is_some() && self.pending_source_location_len > 0 {
+            next_source_location_bytes_start = self.pending_source_location_bytes_start;
+            unreported_len = self.pending_source_location_len;
+        }
+
         let decoder = self
             .pending_text_streaming_decoder
             .get_or_insert_with(|| encoding.new_decoder_without_bom_handling());
@@ -92,11 +105,16 @@ impl TextDecoder {
                 decoder.decode_to_str(raw_input, buffer, last_in_text_node);
 
             let finished_decoding = status == CoderResult::InputEmpty;
-            let source_location =
-                SourceLocation::from_start_len(next_source_location_bytes_start, read);
-            next_source_location_bytes_start = source_location.bytes().end;
+            unreported_len += read;
 
             if written > 0 || last_in_text_node {
+                let source_location = SourceLocation::from_start_len(
+                    next_source_location_bytes_start,
+                    unreported_len,
+                );
+                next_source_location_bytes_start = source_location.bytes().end;
+                unreported_len = 0;
+
                 // the last call to feed_text() may make multiple calls to output_handler,
                 // but only one call to output_handler can be *the* last one.
                 let really_last = last_in_text_node && finished_decoding;
@@ -113,8 +131,10 @@ impl TextDecoder {
             if finished_decoding {
                 if last_in_text_node {
                     self.pending_text_streaming_decoder = None;
+                    self.pending_source_location_len = 0;
                 } else {
                     self.pending_source_location_bytes_start = next_source_location_bytes_start;
+                    self.pending_source_location_len = unreported_len;
                 }
                 return Ok(());
             }
